@@ -5,10 +5,32 @@ import os, subprocess, sys, time, json, hashlib, re, shutil
 
 VERIF = os.path.dirname(os.path.dirname(os.path.abspath(__file__)))
 COQ = os.path.join(VERIF, 'coq')
-HARNESS = os.path.join(VERIF, 'harness')
+# The registered checks always verify /repo.  For mutation experiments only, VERIF_REPO points the
+# harness at a scratch copy of the repository and VERIF_INSTANCE gives this run private work, harness
+# and replay directories, so that several experiments can run side by side.
+REPO = os.environ.get('VERIF_REPO', '/repo')
+INSTANCE = os.environ.get('VERIF_INSTANCE', '')
+HARNESS = os.path.join(VERIF, 'harness') if not INSTANCE else os.path.join(VERIF, 'work', 'inst', INSTANCE, 'harness')
 DRIVER = os.path.join(VERIF, 'model', 'driver')
-WORK = os.path.join(VERIF, 'work')
-REPLAYS = os.path.join(VERIF, 'replays')
+WORK = os.path.join(VERIF, 'work') if not INSTANCE else os.path.join(VERIF, 'work', 'inst', INSTANCE, 'work')
+REPLAYS = os.path.join(VERIF, 'replays') if not INSTANCE else os.path.join(VERIF, 'work', 'inst', INSTANCE, 'replays')
+EVIDENCE = os.path.join(VERIF, 'evidence') if not INSTANCE else os.path.join(VERIF, 'work', 'inst', INSTANCE, 'evidence')
+
+def prepare_instance():
+    """private copy of the harness crate pointing at VERIF_REPO"""
+    if not INSTANCE:
+        return
+    src = os.path.join(VERIF, 'harness')
+    if not os.path.exists(os.path.join(HARNESS, 'Cargo.toml')):
+        os.makedirs(HARNESS, exist_ok=True)
+        for item in ('src', '.cargo', 'Cargo.lock'):
+            a = os.path.join(src, item); b = os.path.join(HARNESS, item)
+            if os.path.isdir(a):
+                shutil.copytree(a, b, dirs_exist_ok=True)
+            else:
+                shutil.copy(a, b)
+        t = open(os.path.join(src, 'Cargo.toml')).read().replace('path = "/repo"', 'path = "%s"' % REPO)
+        open(os.path.join(HARNESS, 'Cargo.toml'), 'w').write(t)
 NPROC = 16
 
 def sh(cmd, timeout=3000, cwd=None, env=None):
@@ -186,7 +208,14 @@ def build_all(log):
     """Bring the Coq development, the driver and the harness up to date with
     the working trees.  Returns (ok, message)."""
     os.makedirs(WORK, exist_ok=True)
+    prepare_instance()
     t0 = time.time()
+    if INSTANCE:
+        # experiments never rebuild the shared Coq development or driver
+        rc3, out3 = sh('RUSTFLAGS="--cfg stevia_verif" cargo build --offline 2>&1 | tail -30', cwd=HARNESS)
+        if not os.path.exists(harness_bin()) or 'could not compile' in out3:
+            return False, 'harness build failed: ' + out3[-3000:], True, ''
+        return True, '', True, ''
     if not os.path.exists(os.path.join(COQ, 'Makefile')):
         sh('coq_makefile -f _CoqProject -o Makefile', cwd=COQ)
     rc, out = sh('timeout 3000 make -j16', cwd=COQ)
